@@ -80,6 +80,7 @@ REQUESTS = [
     "/d.dods?st.m[1:2],s", "/d.dods?q", "/d.dods?q.c,q.a", "/d.ascii?q&q.a>1", "/d.dods?q.a&q.a>1&q.b<5", "/d.dods?q[1:2]",
     "/d.dods?lz", "/d.ascii?lz&lz.k>1", "/d.dods?lz.v&lz.k<3", "/d.dods?lz[1:3]", "/d.das?x[0:0]",
     "/d.dods?mean(x,0)", "/d.dods?mean(mean(x,0),0)", "/d.ascii?mean(g,1)", "/d.dods?x,mean(f,1)", "/d.dods?loc&bounds(0,25,0,5,0,20,0,9)",
+    "/d.dods?m", "/d.dds?m", "/d.ascii?n", "/d.dods?k", "/d.dods?q.a", "/d.dods?loc.t", "/d.dods?lz.k", "/d.dods?q.b", "/d.dods?lz.v",
     "/d.dods?nope", "/d.dods?x[5:9]", "/d.dods?q&q.zz>1", "/d.xyz", "/d", "/d.dods?x[0:1", "/d.dods?mean(nope,0)", "/d.dods?q&q.a>>1",
 ]
 
@@ -187,7 +188,18 @@ def main():
         ds = build_dataset()
         app = ServerSideFunctions(BaseHandler(ds))
         before = snapshot(ds)
-        hist = [rng.choice(REQUESTS) for _ in range(rng.randint(3, 9))]
+        hist = []
+        for _ in range(rng.randint(3, 9)):
+            # the same request again (possibly as another response kind) is the likeliest victim of state kept between requests
+            if hist and rng.random() < 0.35:
+                u = rng.choice(hist)
+                if rng.random() < 0.4 and "?" in u:
+                    u = "/d." + rng.choice(["dds", "dods", "ascii"]) + "?" + u.split("?", 1)[1]
+                    if u not in baseline:
+                        baseline[u] = fetch(fresh_app(), u)
+                hist.append(u)
+            else:
+                hist.append(rng.choice(REQUESTS))
         stats["histories"] += 1
         for pos, u in enumerate(hist):
             got = fetch(app, u)
@@ -245,6 +257,24 @@ def main():
                 break
         if snapshot(ds) != before:
             direct.append({"law": "the served dataset is unchanged after concurrent requests", "requests": urls})
+    # a single preemption at (a stride of) every LINE of the first request, for pairs of sequence requests whose records have
+    # the same wire layout (scratch buffers shared between requests would be hit here)
+    seq_pairs = [("/d.dods?q.a", "/d.dods?loc.t"), ("/d.dods?lz.k", "/d.dods?q.a"), ("/d.dods?q.b", "/d.dods?lz.v"),
+                 ("/d.dods?q", "/d.dods?q&q.a>1"), ("/d.ascii?q.a", "/d.dods?loc.t")]
+    for urls in (seq_pairs if T != "quick" else rng.sample(seq_pairs, 2)):
+        urls = list(urls)
+        ds = build_dataset()
+        app = ServerSideFunctions(BaseHandler(ds))
+        res, sc = run_threads(app, urls, lambda tid, k, alive: tid, "line")
+        if not check(urls, res, sc, "no preemption (line counting)"):
+            continue
+        n0 = sc.count[0]
+        step = 1 if T != "quick" else max(1, n0 // 120)
+        for k0 in range(1, n0 + 1, step):
+            res, sc2 = run_threads(app, urls, lambda tid, k, alive, k0=k0: 1 if (tid == 0 and k == k0) else tid, "line")
+            stats["single_preemption"] += 1
+            if not check(urls, res, sc2, "single preemption at line event %d of %d" % (k0, n0)):
+                break
     # random schedules at line granularity, 2-3 threads
     for p in range(10 if T == "quick" else 150):
         ds = build_dataset()
